@@ -296,19 +296,19 @@ end Inst
 /-! ### the dump of the two results -/
 
 section Final
-variable {s : Split} {R R' : Registry} (opts : Opts) (plug : Plug) (h : IsSplitOf s R R' plug)
+variable {s : Split} {R R' : Registry} (opts : Opts) (plug plug' : Plug) (h : IsSplitOf s R R' plug plug')
 
 include h in
 /-- **The canonical dumps are equal** (no augment or deviation statement in the set). -/
 theorem dumpOf_split (hna : NoAugDev R) (hclean : (processAll R opts plug).errors = []) :
-    dumpOf (processAll R' opts plug) s.owner = dumpOf (processAll R opts plug) s.m := by
-  obtain ⟨_, _, ⟨t, ht⟩, k4⟩ := process_split opts plug h hna hclean
+    dumpOf (processAll R' opts plug') s.owner = dumpOf (processAll R opts plug) s.m := by
+  obtain ⟨_, _, ⟨t, ht⟩, k4⟩ := process_split opts plug plug' h hna hclean
   obtain ⟨t', ht', hst⟩ := k4 t ht
   have hnd := names_nodup_of_clean R opts plug hclean _ t ht
-  have hW : DW R R' (processAll R opts plug).forest (processAll R' opts plug).forest t' t s.m.seq :=
+  have hW : DW R R' (processAll R opts plug).forest (processAll R' opts plug').forest t' t s.m.seq :=
     ⟨fun p => readOnlyAt_sameTop s.σ t' t hst hnd p,
-     fun p => (process_split_paths opts plug h hna hclean p).1,
-     fun p => inst_split h.text h.regs _ _ _ (process_split_paths opts plug h hna hclean p).1,
+     fun p => (process_split_paths opts plug plug' h hna hclean p).1,
+     fun p => inst_split h.text h.regs _ _ _ (process_split_paths opts plug plug' h hna hclean p).1,
      fun p => pathString_sameTop s.σ t' t hst hnd p⟩
   unfold dumpOf
   rw [processAll_reg, processAll_reg, h.regs.owner_seq, ht, ht', IncludeLink.owner_fullName h.text]
